@@ -328,3 +328,5 @@ prev_locals = declare_pred("prev_locals", L.V, L.V, tag="Seq[Callee]")   # value
 # a function object's __code__ is what code_of() denotes on resolved functions (one notion for frames, functions and lookup candidates)
 L.axiom(T, "callee-code-is-code-of", L.FA(f, z3.Implies(callee_code(f) != L.NONE, callee_code(f) == code_of(f)), [callee_code(f)]))
 L.axiom(T, "code-of-not-none", L.FA(f, code_of(f) != L.NONE, [code_of(f)]))
+
+R.INLINE_CTORS["monkeytype.db.base:CallTraceStoreLogger"] = "StoreLogger"
